@@ -122,6 +122,12 @@ def touchTreeList (σ : Store) : List Ast → Store
   | k :: rest => touchTreeList (touchTree σ k) rest
 end
 
+/-- tail of `_put_slice` for `Call` / `ClassDef` / `MatchClass` (fst_put_slice.py, after the repair of C02-F1):
+`for a in iter_child_nodes(self.a): a.f._touch()` -/
+def touchKids (σ : Store) : List Ast → Store
+  | [] => σ
+  | k :: rest => touchKids (touchAst σ k.id) rest
+
 /-- `while parent := parent.parent: parent._cache.clear()`; `fuel` bounds the walk (number of FST objects). -/
 def touchParents (σ : Store) : Nat → Nat → Store
   | 0, _ => σ
